@@ -1279,7 +1279,12 @@ class DiskRefsContainer(RefsContainer):
         f = GitFile(filename, "wb")
         try:
             f.write(SYMREF + other + b"\n")
-            sha = self.follow(name)[-1]
+            try:
+                sha = self.follow(name)[-1]
+            except SymrefLoop:
+                # the ref being replaced is (part of) a loop: there is no
+                # value to record, and retargeting it is the way out
+                sha = None
             self._log(
                 name,
                 sha,
